@@ -137,16 +137,23 @@ def run_group(arg):
 
 # ------------------------------------------------------------------ main
 def tlc_cases(ctx):
-    cfg = "Indexing_quick.cfg" if ctx.quick else "Indexing_thorough.cfg"
-    res = core.run_tlc("Indexing", cfg, dump=True, timeout=3000)
-    ctx.tlc(res, cfg)
-    if not res.ok:
-        # design-level violation: the spec's own property fails -> machinery/design problem, not impl
-        raise core.MachineryError(f"TLC reports {res.violated} on {cfg}:\n{res.out[-1500:]}")
+    import json
+
+    cfgs = ["Indexing_quick.cfg"] if ctx.quick else ["Indexing_thorough.cfg", "Indexing_full2.cfg"]
+    states = []
+    for cfg in cfgs:
+        res = core.run_tlc("Indexing", cfg, timeout=3000, heap="8g")
+        ctx.tlc(res, cfg)
+        if not res.ok:
+            # design-level violation: the spec's own property fails -> machinery/design problem, not impl
+            raise core.MachineryError(f"TLC reports {res.violated} on {cfg}:\n{res.out[-1500:]}")
+        states += [json.loads(pr[1]) for pr in res.printed if pr and pr[0] == "CASE"]
+        res.out = ""
+        res.printed = []
     vac = core.run_tlc("Indexing", "Indexing_vacuity.cfg", timeout=600)
     if vac.ok:
         raise core.MachineryError("vacuity: no successful rank>=2 case reachable in Indexing.tla")
-    return [s for s in res.dump if s["stage"] == "done"]
+    return states
 
 
 def nontrivial(s) -> bool:
@@ -171,6 +178,17 @@ def run(ctx: core.Ctx):
         dev = [k for k in keys if any(s["convWhy"] or s["eagerWhy"] for s in bykey[k])]
         rest = [k for k in keys if k not in set(dev)]
         keys = dev[:60] + rest[:700]
+    elif len(states) > 160000:
+        # thorough: every expression whose implementation model departs from NumPy, the rest sampled by seed
+        rng.shuffle(keys)
+        dev = [k for k in keys if any(s["convWhy"] or s["eagerWhy"] for s in bykey[k])]
+        rest = [k for k in keys if k not in set(dev)]
+        keys, n = [], 0
+        for k in dev + rest:
+            if n > 160000:
+                break
+            keys.append(k)
+            n += len(bykey[k])
     chosen = []
     groups: dict[str, list] = {}
     for k in keys:
@@ -214,7 +232,7 @@ def run(ctx: core.Ctx):
     ctx.set("distinct_nontrivial", len(nontriv))
     ctx.set("traces_validated_against_impl", ctx.coverage.get("evaluations", 0))
     ctx.set("model_impl_mismatches", mismatch)
-    ctx.set("exhaustive", not ctx.quick)
+    ctx.set("exhaustive", len(chosen) == len(states))
     ctx.set("rule", "cases = reachable 'done' states of Indexing.tla (shape x index tuple, bounds in the cfg); "
                     "non-trivial = NumPy result defined and at least one component is not ':'; "
                     "distinct by (shape, expression text, index tensor)")
